@@ -115,11 +115,14 @@ def rotate3d(n: npt.ArrayLike, theta: float) -> npt.NDArray[np.float32]:
         dtype=np.float32,
     )
 
-    return (
-        np.cos(theta) * np.identity(4)
-        + (1 - np.cos(theta)) * n * n[:, None]
+    rotation = (
+        np.cos(theta) * np.identity(3)
+        + (1 - np.cos(theta)) * n[0:3] * n[0:3, None]
         + np.sin(theta) * N
     )
+    T = np.identity(4, dtype=np.float32)
+    T[0:3, 0:3] = rotation
+    return T
 
 
 def rotate3d_x(theta: float) -> npt.NDArray[np.float32]:
